@@ -33,9 +33,9 @@ theorem select_mem_iff (ρ : Env) (q : Query) (qs : List Query) (nodes : List No
   exact mem_chains _ _ _ _ _
 
 example : selectNodes (fun _ _ => .ret true) [.name (.lit (.str ['a'])), .name .any]
-    [top (.node 0 (.str ['a']) [] [.node 1 (.str ['b']) [] [], .node 2 .none [] []])] false
-    = some [⟨[.node 0 (.str ['a']) [] [.node 1 (.str ['b']) [] [], .node 2 .none [] []]], .node 1 (.str ['b']) [] []⟩,
-            ⟨[.node 0 (.str ['a']) [] [.node 1 (.str ['b']) [] [], .node 2 .none [] []]], .node 2 .none [] []⟩] := by
+    [top 0 (.node (.str ['a']) [] [.node (.str ['b']) [] [], .node .none [] []])] false
+    = some [⟨[.node (.str ['a']) [] [.node (.str ['b']) [] [], .node .none [] []]], .node (.str ['b']) [] [], [0, 0]⟩,
+            ⟨[.node (.str ['a']) [] [.node (.str ['b']) [] [], .node .none [] []]], .node .none [] [], [0, 1]⟩] := by
   rfl
 
 /-- no duplicates, nothing foreign: up to order the result is a selection of occurrences of the
@@ -101,32 +101,33 @@ theorem select_document_order_plain (ρ : Env) (nodes : List Node) (qs : List Qu
 /-! the witness tree of the known findings (`wTop` = A1[A2[B2], B1] below a document top, `qA`, `qB`,
 `wEnv`) is defined in IV/Lemmas/Query.lean -/
 
-/-- KNOWN FINDING deep-nested-order: `top.find("A", "B")` returns B1 (id 4) before B2 (id 3) -/
-theorem order_witness_ids : entryFind wEnv (top wTop) [qA, qB] false = some [4, 3] := by decide
+/-- KNOWN FINDING deep-nested-order: `top.find("A", "B")` returns B1 (at 0.0.1) before B2 (at 0.0.0.0) -/
+theorem order_witness_ids : entryFind wEnv (top 0 wTop) [qA, qB] false = some [[0, 0, 1], [0, 0, 0, 0]] := by decide
 
 theorem order_witness : ¬ DocumentOrder := by
   intro h
-  have hs := h wEnv [qA, qB] (top wTop).kids true _ rfl
-  exact absurd (hs.map Node.id) (by decide)
+  have hs := h wEnv [qA, qB] (top 0 wTop).kids true _ rfl
+  exact absurd (hs.map Node.path) (by decide)
 
 /-- the hypothesis of the partial theorem is what fails on the witness -/
-example : ¬ NoNest (qA.eval wEnv) (top wTop).kids := by
+example : ¬ NoNest (qA.eval wEnv) (top 0 wTop).kids := by
   intro h
-  have e2 : flatten (⟨[wTop], wA1⟩ : Node).kids = [⟨[wA1, wTop], wA2⟩, ⟨[wA2, wA1, wTop], wB2⟩, ⟨[wA1, wTop], wB1⟩] := rfl
-  have := h ⟨[wTop], wA1⟩ (by rw [wFlat]; simp) (by decide) ⟨[wA1, wTop], wA2⟩ (by rw [e2]; simp)
+  have e2 : flatten (⟨[wTop], wA1, [0, 0]⟩ : Node).kids =
+      [⟨[wA1, wTop], wA2, [0, 0, 0]⟩, ⟨[wA2, wA1, wTop], wB2, [0, 0, 0, 0]⟩, ⟨[wA1, wTop], wB1, [0, 0, 1]⟩] := rfl
+  have := h ⟨[wTop], wA1, [0, 0]⟩ (by rw [wFlat]; simp) (by decide) ⟨[wA1, wTop], wA2, [0, 0, 0]⟩ (by rw [e2]; simp)
   revert this; decide
 
 /-- non-vacuity of the partial theorem: a two-level deep query on the same tree whose first level does not nest -/
-example : NoNest (qB.eval wEnv) (top wTop).kids := by
+example : NoNest (qB.eval wEnv) (top 0 wTop).kids := by
   intro n hn hq m hm
   rw [wFlat] at hn
   simp only [List.mem_cons, List.not_mem_nil, or_false] at hn
   rcases hn with rfl | rfl | rfl | rfl
   · exact absurd hq (by decide)
   · exact absurd hq (by decide)
-  · have e : flatten (⟨[wA2, wA1, wTop], wB2⟩ : Node).kids = [] := rfl
+  · have e : flatten (⟨[wA2, wA1, wTop], wB2, [0, 0, 0, 0]⟩ : Node).kids = [] := rfl
     rw [e] at hm; cases hm
-  · have e : flatten (⟨[wA1, wTop], wB1⟩ : Node).kids = [] := rfl
+  · have e : flatten (⟨[wA1, wTop], wB1, [0, 0, 1]⟩ : Node).kids = [] := rfl
     rw [e] at hm; cases hm
 
 /-- FULL statement for chained queries (false, see `nested_result_duplicates_witness`): a query on the
@@ -138,13 +139,13 @@ def ChainedDocumentOrder : Prop :=
 
 /-- KNOWN FINDING nested-result-duplicates: `top.find("A").find("B")` returns B2, B1, B2 -/
 theorem nested_result_duplicates_ids :
-    (selectNodes wEnv [qA] (top wTop).kids true).bind (fun r1 => resultFind wEnv r1 [qB] false)
-      = some [3, 4, 3] := by decide
+    (selectNodes wEnv [qA] (top 0 wTop).kids true).bind (fun r1 => resultFind wEnv r1 [qB] false)
+      = some [[0, 0, 0, 0], [0, 0, 1], [0, 0, 0, 0]] := by decide
 
 theorem nested_result_duplicates_witness : ¬ ChainedDocumentOrder := by
   intro h
-  have hs := h wEnv (top wTop) qA [qB] true _ _ rfl rfl
-  exact absurd (hs.map Node.id) (by decide)
+  have hs := h wEnv (top 0 wTop) qA [qB] true _ _ rfl rfl
+  exact absurd (hs.map Node.path) (by decide)
 
 /-- PARTIAL: chained queries are in document order when the first result does not nest -/
 theorem chained_document_order_partial (ρ : Env) (e : Node) (q1 : Query) (qs : List Query) (deep : Bool)
@@ -160,56 +161,105 @@ theorem chained_document_order_partial (ρ : Env) (e : Node) (q1 : Query) (qs : 
     rw [hr1]; exact cut_kids (cut_of_noNest _ _ hn1)
   exact select_document_order_partial ρ e.kids (grandchildren r1) qs deep r2 hc h2 hn
 
-/-! ## 3. roots (select after fix 9796838: a parentless result is its own root) -/
+/-! ## 3. roots, parents, upto: de-duplication by identity
 
-/-- with `roots` the loop over the results yields, for every result, its furthest ancestor
-(`Entry.root`, the last element of the parent chain) or the node itself when it has no parent,
-de-duplicated by identity in first-occurrence order -/
-theorem roots_exact (res : List Node) : rootsOf res = firstOcc Tree.id (res.map Node.rootOrSelf) := by
-  simp only [rootsOf, rootsLoop_eq, List.nil_append]
-  rw [List.filter_eq_self.mpr (by intros; rfl)]
+An entry is an object; its identity in the model is `Node.path` (where it is), never its content
+(`Node.tree`: name, attributes, children).  Two entries with identical content — the same manifest
+loaded twice, a repeated section — are two nodes. -/
+
+/-- with `roots` (and for `Result.roots`) the loop over the results yields, for every result, its
+furthest ancestor (`Entry.root`) or the node itself when it has no parent, de-duplicated BY IDENTITY
+in first-occurrence order -/
+theorem roots_exact (res : List Node) : rootsOf res = firstOcc Node.path (res.map Node.rootNode) := by
+  simp only [rootsOf, dedupLoop_nil]
 
 theorem select_roots_exact (ρ : Env) (qs : List Query) (nodes : List Node) (deep : Bool) :
     select ρ qs nodes deep true =
-      (selectNodes ρ qs nodes deep).map (fun res => (firstOcc Tree.id (res.map Node.rootOrSelf)).map Tree.id) := by
+      (selectNodes ρ qs nodes deep).map (fun res => (firstOcc Node.path (res.map Node.rootNode)).map Node.path) := by
   simp [select, roots_exact]
 
 /-- … which means: no identity twice, every result's root present, nothing else, in the order of
 the first result that has the root -/
 theorem roots_spec (res : List Node) :
-    ((rootsOf res).map Tree.id).Nodup ∧
-    (∀ n ∈ res, n.rootOrSelf.id ∈ (rootsOf res).map Tree.id) ∧
-    (rootsOf res).Sublist (res.map Node.rootOrSelf) := by
+    ((rootsOf res).map Node.path).Nodup ∧
+    (∀ n ∈ res, n.rootPath ∈ (rootsOf res).map Node.path) ∧
+    (rootsOf res).Sublist (res.map Node.rootNode) := by
   rw [roots_exact]
   refine ⟨firstOcc_nodup _ _, ?_, firstOcc_sublist _ _⟩
   intro n hn
-  obtain ⟨y, hy, hk⟩ := firstOcc_covers Tree.id (res.map Node.rootOrSelf) n.rootOrSelf (List.mem_map_of_mem hn)
+  obtain ⟨y, hy, hk⟩ := firstOcc_covers Node.path (res.map Node.rootNode) n.rootNode (List.mem_map_of_mem hn)
   exact List.mem_map.mpr ⟨y, hy, hk⟩
+
+/-- the de-duplication is by identity, not by content: every root identity among the results is
+reported exactly once — so results whose roots are DIFFERENT entries get different roots in the
+answer even when those roots have identical content, and the number of roots is the number of
+distinct root identities, whatever the content -/
+theorem roots_dedup_by_identity (res : List Node) :
+    (∀ n ∈ res, ((rootsOf res).map Node.path).count n.rootPath = 1) ∧
+    (∀ n ∈ res, ∀ m ∈ res, n.rootPath ≠ m.rootPath →
+        ∃ r ∈ rootsOf res, ∃ r' ∈ rootsOf res, r.path = n.rootPath ∧ r'.path = m.rootPath ∧ r.path ≠ r'.path) := by
+  obtain ⟨hnd, hcov, _⟩ := roots_spec res
+  refine ⟨?_, ?_⟩
+  · intro n hn
+    rw [List.Nodup.count hnd, if_pos (hcov n hn)]
+  · intro n hn m hm hne
+    obtain ⟨r, hr, hrp⟩ := List.mem_map.mp (hcov n hn)
+    obtain ⟨r', hr', hrp'⟩ := List.mem_map.mp (hcov m hm)
+    exact ⟨r, hr, r', hr', hrp, hrp', by rw [hrp, hrp']; exact hne⟩
+
+/-- two documents with IDENTICAL content, one hit in each: two roots (a content-keyed `seen` set would give one) -/
+example :
+    let d : Tree := .node .none [] [.node (.str ['a']) [.int 1] []]
+    select wEnv [.name (.lit (.str ['a']))] (grandchildren (tops [d, d])) false true = some [[0], [1]] ∧
+    select wEnv [.name (.lit (.str ['a']))] (grandchildren (tops [d, d])) false false = some [[0, 0], [1, 0]] ∧
+    select wEnv [.name (.lit (.str ['a']))] (tops [.node (.str ['a']) [] [], .node (.str ['a']) [] []]) false true
+      = some [[0], [1]] := by decide
+
+/-- `Result.parents` and `Result.upto(q)`: the parents (or the node itself when parentless) / the first
+ancestors satisfying `q`, de-duplicated by identity in first-occurrence order -/
+theorem parents_upto_exact (q : Node → Bool) (children : List Node) :
+    parentsOf children = firstOcc Node.path (children.map Node.parentOrSelf) ∧
+    uptoOf q children = firstOcc Node.path (children.filterMap (Node.upto q)) ∧
+    ((parentsOf children).map Node.path).Nodup ∧ ((uptoOf q children).map Node.path).Nodup := by
+  refine ⟨by simp only [parentsOf, dedupLoop_nil], by simp only [uptoOf, dedupLoop_nil], ?_, ?_⟩
+  · simp only [parentsOf, dedupLoop_nil]; exact firstOcc_nodup _ _
+  · simp only [uptoOf, dedupLoop_nil]; exact firstOcc_nodup _ _
+
+/-- the parent of a child is the entry it is a child of — same content, same identity -/
+theorem parentOrSelf_kids {n c : Node} (h : c ∈ n.kids) : c.parentOrSelf = n := by
+  obtain ⟨ha, j, hp⟩ := mem_kidsFrom h
+  obtain ⟨anc, t, path⟩ := n
+  simp only [Node.parentOrSelf, ha, hp, List.dropLast_concat]
+
+/-- two identical sibling sections with one hit each have two parents -/
+example :
+    let s : Tree := .node (.str ['s']) [] [.node (.str ['a']) [] []]
+    (parentsOf ((top 0 (.node .none [] [s, s])).kids.flatMap Node.kids)).map Node.path = [[0, 0], [0, 1]] := by decide
 
 /-- FULL statement (true since fix 9796838; it was false before: a parentless result gave `None`):
 every root returned is an Entry, namely the furthest ancestor of one of the results, or that
 result itself when it has no parent -/
 def RootsAreNodes : Prop :=
   ∀ (res : List Node), ∀ r ∈ rootsOf res, ∃ n ∈ res,
-    (n.anc = [] → r = n.tree) ∧ (∀ a, n.anc.getLast? = some a → r = a)
+    (n.anc = [] → r.tree = n.tree ∧ r.path = n.path) ∧ (∀ a, n.anc.getLast? = some a → r.tree = a)
 
 theorem roots_are_nodes : RootsAreNodes := by
   intro res r hr
   have hsub := (roots_spec res).2.2.subset hr
   obtain ⟨n, hn, rfl⟩ := List.mem_map.mp hsub
   refine ⟨n, hn, ?_, ?_⟩
-  · intro ha; simp [Node.rootOrSelf, Node.root, ha]
-  · intro a ha; simp [Node.rootOrSelf, Node.root, ha]
+  · intro ha; simp [Node.rootNode, Node.rootOrSelf, Node.rootPath, Node.root, ha]
+  · intro a ha; simp [Node.rootNode, Node.rootOrSelf, Node.root, ha]
 
 /-- regression of fix 9796838: `select(compile_queries("a"), [Entry("a")], roots=True)` returns the entry itself -/
 theorem roots_parentless_regression :
-    select wEnv [.name (.lit (.str ['a']))] [top (.node 0 (.str ['a']) [] [])] false true = some [0] := by decide
+    select wEnv [.name (.lit (.str ['a']))] [top 0 (.node (.str ['a']) [] [])] false true = some [[0]] := by decide
 
 /-- the root of every returned node is the root of the start node it was reached from: whatever
 holds of the roots (or selves) of all start nodes holds of the roots of all results -/
-theorem roots_ultimate (ρ : Env) (R : Tree → Prop) (qs : List Query) (nodes : List Node) (deep : Bool)
-    (res : List Node) (hR : ∀ s ∈ nodes, R s.rootOrSelf) (h : selectNodes ρ qs nodes deep = some res) :
-    ∀ m ∈ res, R m.rootOrSelf := by
+theorem roots_ultimate (ρ : Env) (R : Node → Prop) (qs : List Query) (nodes : List Node) (deep : Bool)
+    (res : List Node) (hR : ∀ s ∈ nodes, R s.rootNode) (h : selectNodes ρ qs nodes deep = some res) :
+    ∀ m ∈ res, R m.rootNode := by
   cases qs with
   | nil => cases h
   | cons q qs =>
@@ -221,15 +271,15 @@ theorem roots_ultimate (ρ : Env) (R : Tree → Prop) (qs : List Query) (nodes :
     · exact rooted_flatten R nodes hR
 
 /-- `e.select(..., roots=True)` / `e.find(..., roots=True)`: every result has the root of `e`
-(`e` itself when `e` is a document top), so the result is empty or that single root -/
+(`e` itself when `e` is a document top) — content and identity — so the answer is empty or that single root -/
 theorem entry_roots (ρ : Env) (e : Node) (qs : List Query) (deep : Bool) (res : List Node)
-    (h : selectNodes ρ qs e.kids deep = some res) : ∀ m ∈ res, m.rootOrSelf = e.rootOrSelf :=
-  roots_ultimate ρ (fun r => r = e.rootOrSelf) qs e.kids deep res (fun _ hs => rootOrSelf_kids hs) h
+    (h : selectNodes ρ qs e.kids deep = some res) : ∀ m ∈ res, m.rootNode = e.rootNode :=
+  roots_ultimate ρ (fun r => r = e.rootNode) qs e.kids deep res (fun _ hs => rootNode_kids hs) h
 
-example : (top wTop).rootOrSelf = wTop ∧ selectNodes wEnv [qB] (top wTop).kids true ≠ some [] := by
+example : (top 0 wTop).rootNode = top 0 wTop ∧ selectNodes wEnv [qB] (top 0 wTop).kids true ≠ some [] := by
   refine ⟨rfl, ?_⟩
   intro h
-  have := congrArg (Option.map (List.map Node.id)) h
+  have := congrArg (Option.map (List.map Node.path)) h
   revert this; decide
 
 /-! ## 4. find, __getitem__ -/
@@ -241,12 +291,12 @@ theorem find_eq_select_deep (ρ : Env) (e : Node) (children : List Node) (qs : L
 
 /-- `entry[q]` is the one-level, non-deep select -/
 theorem getitem_eq_select (ρ : Env) (e : Node) (q : Query) :
-    entrySelect ρ e [q] false false = some ((entryGetitem ρ e q).map Node.id) := by
+    entrySelect ρ e [q] false false = some ((entryGetitem ρ e q).map Node.path) := by
   simp [entrySelect, select, selectNodes, runQueries, matchLv, entryGetitem]
 
 /-- `result[q]` is the one-level, non-deep select over the grandchildren -/
 theorem result_getitem_eq_select (ρ : Env) (children : List Node) (q : Query) :
-    resultSelect ρ children [q] false false = some ((resultGetitem ρ children q).map Node.id) := by
+    resultSelect ρ children [q] false false = some ((resultGetitem ρ children q).map Node.path) := by
   simp [resultSelect, select, selectNodes, runQueries, matchLv, resultGetitem]
 
 /-- a tuple query: the name matches and (no attribute query, or some attribute satisfies some of them) -/
@@ -428,7 +478,7 @@ theorem raising_not_matching (ρ : Env) (e : Node) :
     intro a ha
     rcases h a ha with h | h <;> simp [AttrQ.eval, guard, h]
 
-example : (BExp.prim .startswith (.str ['x'])).evalC wEnv (Node.name ⟨[], .node 7 (.int 5) [] []⟩) = .raise := by decide
+example : (BExp.prim .startswith (.str ['x'])).evalC wEnv (Node.name ⟨[], .node (.int 5) [] [], [7]⟩) = .raise := by decide
 
 /-- … and therefore such a node is not returned by the one-level query -/
 theorem raising_not_selected (ρ : Env) (b : BExp) (nodes : List Node) (deep : Bool) (res : List Node)
